@@ -1,9 +1,29 @@
 /-
-C08 — property theorems. A *twin run* feeds the same step sequence to a delta and to a cumulative instance of the
-same aggregator (no cardinality limit: with a limit the two instances may redirect different sets to the
-overflow set, because only the delta instance forgets its sets at every collection).
+C08 — property theorems.
+
+Three layers, all about the SAME executable functions the driver replays (Otel.C02.Model aggregators, Otel.C08.Model
+twin-reader system, Otel.C08.Oracle oracle):
+
+1. step-sequence theorems about one aggregator (`twin_sum`, `twin_hist_count_sum`, `twin_hist_buckets`,
+   `hist_cells_wellformed`) and ONE-STEP characterisations of every collection function (`delta_intervals_adjacent`,
+   `cumulative_start_fixed`, `start_le_time`, `async_cycle_exact`, `async_delta_is_difference`, `gauge_last_value`,
+   `unregistered_not_observed`);
+2. HISTORY-LEVEL theorems about one instrument (`*_history`): for every history (list of cycles, each with the
+   measurements that reach the aggregator and a clock reading) the Spec predicate the oracle uses is true of the model's
+   own reports;
+3. HISTORY-LEVEL theorems about the whole system (`intervals_history`, `twin_all_clauses`): for every history of
+   operations, the oracle — the very `Bool` function the driver evaluates on the implementation's records — is true of
+   the model's own records.
+
+A *twin run* feeds the same measurements to a delta and to a cumulative instance of the same aggregator (no
+cardinality limit: with a limit the two instances may redirect different sets to the overflow set, because only the
+delta instance forgets its sets at every collection; `mkAgg` never sets one).
 -/
 import Otel.C08.Lemmas
+import Otel.C08.HistTwin
+import Otel.C08.HistAsync
+import Otel.C08.HistInterval
+import Otel.C08.SysOracle
 import Otel.C02.Props
 namespace Otel.C08
 open Otel.C02 Otel.C02.Spec
@@ -227,6 +247,209 @@ theorem gauge_last_value (s : LastValue) (hl : s.limit = 0) (a b : Attr) (x : In
   · simp only [LastValue.measure, hl, limitAttr_zero]
     rw [get?_upd]
   all_goals simp only [LastValue.delta, LastValue.pdelta, LastValue.pcumulative, LastValue.cumulative]; exact mkPoints_cells _ _ _
+
+/-! ## History-level theorems (one instrument)
+
+A *history* of one instrument is a list of cycles `(ms, t)`: the measurements `ms` that reach its aggregator during
+the cycle (synchronous records, or the observations replayed by the callbacks of that collection), followed by the
+collection with clock reading `t` (`Agg.runCycles`, History.lean).  The delta and the cumulative reader own one
+aggregator instance each, created by the same `mkAgg` and fed the same measurements.  `repOf` turns what a collection
+returned into the `Spec.Report` the oracle reads (points sorted by attribute, payloads as vectors).  Each theorem
+below says: the oracle predicate of Spec.lean, evaluated on the model's own reports, is true — for EVERY history. -/
+
+/-- HISTORY LEVEL of the twin clause (sum): over every history the oracle predicate `Spec.twinAgree` holds of the
+reports of the delta and the cumulative instance — at every collection, for every attribute set, the cumulative
+value is the running total of the delta values (absent points count as 0). -/
+theorem twin_agree_history_sum (s : Sum) (hl : s.limit = 0) (hv : s.values = []) (hist : List Cycle) :
+    Spec.twinAgree (((Agg.sum s).runCycles .delta hist).2.map repOf)
+      (((Agg.sum s).runCycles .cumulative hist).2.map repOf) = true :=
+  twinAgree_runCycles (.sum s) hl (by simp [Agg.keys, hv, AMap.keys])
+    (by intro a; simp [Agg.hv, Agg.held, hv, AMap.get?]) hist
+
+/-- HISTORY LEVEL of the twin clause (explicit histogram, and the exponential histogram at count / sum / sign-split
+level): `Spec.twinAgree` compares the whole vectors `count :: sum :: bucket counts`, so this is count, sum and EVERY
+bucket, at every collection of every history, for every attribute set. -/
+theorem twin_agree_history_hist (h : Hist) (hl : h.limit = 0) (hv : h.values = []) (hist : List Cycle) :
+    Spec.twinAgree (((Agg.hist h).runCycles .delta hist).2.map repOf)
+      (((Agg.hist h).runCycles .cumulative hist).2.map repOf) = true ∧
+    Spec.twinAgree (((Agg.expo h).runCycles .delta hist).2.map repOf)
+      (((Agg.expo h).runCycles .cumulative hist).2.map repOf) = true := by
+  have hw : HistWF h := by intro kv hkv; rw [hv] at hkv; cases hkv
+  exact ⟨twinAgree_runCycles (.hist h) ⟨hl, hw⟩ (by simp [Agg.keys, hv, AMap.keys])
+      (by intro a; simp [Agg.hv, Agg.held, hv, AMap.get?]) hist,
+    twinAgree_runCycles (.expo h) ⟨hl, hw⟩ (by simp [Agg.keys, hv, AMap.keys])
+      (by intro a; simp [Agg.hv, Agg.held, hv, AMap.get?]) hist⟩
+
+/-- HISTORY LEVEL of `delta_intervals_adjacent`: for EVERY aggregator kind (`g` arbitrary, created at `start`) and every
+history whose clock readings strictly increase from the creation time, every point of the delta reader's `k`-th
+report covers exactly [reading of collection `k-1`, reading of collection `k`] — the first one starts at creation
+(`startAt`).  Adjacent, non-overlapping. -/
+theorem delta_intervals_adjacent_history (g : Agg) (start : Nat) (hs : g.start = none ∨ g.start = some start)
+    (hist : List Cycle) (hinc : increasing start (hist.map (·.2)) = true) (k : Nat) (out : Option (DT × List (Pt PV)))
+    (hk : (g.runCycles .delta hist).2[k]? = some out) :
+    ∀ p ∈ outPts out, p.start = startAt start (hist.map (·.2)) k ∧ p.time = (hist.map (·.2)).getD k 0 :=
+  fun p hp => ⟨((ivInv_run g start hs hist hinc).d k out hk p hp).1, ((ivInv_run g start hs hist hinc).d k out hk p hp).2.1⟩
+
+/-- HISTORY LEVEL of `cumulative_start_fixed`: every point of every report of the cumulative reader starts at the
+creation time and ends at the reading of its collection, over every history. -/
+theorem cumulative_start_fixed_history (g : Agg) (start : Nat) (hs : g.start = none ∨ g.start = some start)
+    (hist : List Cycle) (hinc : increasing start (hist.map (·.2)) = true) (k : Nat) (out : Option (DT × List (Pt PV)))
+    (hk : (g.runCycles .cumulative hist).2[k]? = some out) :
+    ∀ p ∈ outPts out, p.start = start ∧ p.time = (hist.map (·.2)).getD k 0 :=
+  fun p hp => ⟨((ivInv_run g start hs hist hinc).c k out hk p hp).1, ((ivInv_run g start hs hist hinc).c k out hk p hp).2.1⟩
+
+/-- HISTORY LEVEL of `start_le_time`: with strictly increasing clock readings, every point either reader ever reports
+has start < time (in particular start ≤ time). -/
+theorem start_le_time_history (g : Agg) (start : Nat) (hs : g.start = none ∨ g.start = some start)
+    (hist : List Cycle) (hinc : increasing start (hist.map (·.2)) = true) (tp : Temporality) (k : Nat)
+    (out : Option (DT × List (Pt PV))) (hk : (g.runCycles tp hist).2[k]? = some out) :
+    ∀ p ∈ outPts out, p.start < p.time := by
+  intro p hp
+  cases tp
+  · exact ((ivInv_run g start hs hist hinc).d k out hk p hp).2.2
+  · exact ((ivInv_run g start hs hist hinc).c k out hk p hp).2.2
+
+/-- the hypothesis of the three interval theorems is satisfiable -/
+example : increasing 0 [1, 2, 5] = true ∧ increasing 3 [4, 4] = false := by decide
+
+/-- HISTORY LEVEL of `async_cycle_exact` + `async_delta_is_difference`: over every history of an asynchronous sum the
+oracle predicate `Spec.asyncSumHistOK` holds of the model's reports: every cycle both readers report exactly the sets
+observed in that cycle (once each); the cumulative value is the value observed, the delta value is the value observed
+minus the value observed in the IMMEDIATELY preceding cycle — 0 if the set was absent then, even if it had been seen
+two cycles ago. -/
+theorem async_delta_is_difference_history (s : PSum) (hl : s.limit = 0) (hv : s.values = []) (hr : s.reported = [])
+    (hist : List Cycle) :
+    Spec.asyncSumHistOK (hist.map (·.1)) (((Agg.psum s).runCycles .delta hist).2.map repOf)
+      (((Agg.psum s).runCycles .cumulative hist).2.map repOf) = true :=
+  asyncSumHistOK_runCycles s hl hv hr hist
+
+/-- HISTORY LEVEL of `gauge_last_value`: over every history, (asynchronous gauge) both readers report at every cycle
+the last value observed in that cycle for exactly the sets observed in it (`Spec.asyncGaugeHistOK`); (synchronous
+gauge) the delta reader reports the last value recorded in the cycle for exactly the sets recorded in it and the
+cumulative reader the last value ever recorded for every set ever recorded (`Spec.syncGaugeHistOK`). -/
+theorem gauge_last_value_history (s : LastValue) (hl : s.limit = 0) (hv : s.values = []) (hist : List Cycle) :
+    Spec.asyncGaugeHistOK (hist.map (·.1)) (((Agg.plv s).runCycles .delta hist).2.map repOf)
+      (((Agg.plv s).runCycles .cumulative hist).2.map repOf) = true ∧
+    Spec.syncGaugeHistOK (hist.map (·.1)) (((Agg.lv s).runCycles .delta hist).2.map repOf)
+      (((Agg.lv s).runCycles .cumulative hist).2.map repOf) = true :=
+  ⟨asyncGaugeHistOK_runCycles s hl hv hist, syncGaugeHistOK_runCycles s hl hv hist⟩
+
+/-- the hypotheses of the one-instrument history theorems (no limit, fresh aggregator) hold of what `mkAgg` creates and
+of the aggregators used in the examples below -/
+example :
+    ({} : PSum).limit = 0 ∧ ({} : PSum).values = [] ∧ ({} : PSum).reported = [] ∧
+    ({} : LastValue).limit = 0 ∧ ({} : LastValue).values = [] ∧
+    ({ bounds := [0, 10] } : Hist).limit = 0 ∧ ({ bounds := [0, 10] } : Hist).values = [] ∧
+    (Agg.hist { bounds := [0, 10] }).start = some 0 := by
+  decide
+
+/-- non-vacuity of the history-level async theorem: the model's reports over three cycles in which set 1 is observed
+in cycles 1 and 3 only (its third delta is the full 9), the oracle accepts them and rejects the `9 − 5` variant -/
+example :
+    let hist : List Cycle := [([(1, 5), (2, 7), (1, 0)], 1), ([(2, 10)], 2), ([(1, 9), (2, 10)], 3)]
+    ((Agg.psum {}).runCycles .delta hist).2.map repOf = [[(1, [5]), (2, [7])], [(2, [3])], [(1, [9]), (2, [0])]] ∧
+    ((Agg.psum {}).runCycles .cumulative hist).2.map repOf = [[(1, [5]), (2, [7])], [(2, [10])], [(1, [9]), (2, [10])]] ∧
+    Spec.asyncSumHistOK (hist.map (·.1)) [[(1, [5]), (2, [7])], [(2, [3])], [(1, [9]), (2, [0])]]
+       [[(1, [5]), (2, [7])], [(2, [10])], [(1, [9]), (2, [10])]] = true ∧
+    Spec.asyncSumHistOK (hist.map (·.1)) [[(1, [5]), (2, [7])], [(2, [3])], [(1, [4]), (2, [0])]]
+       [[(1, [5]), (2, [7])], [(2, [10])], [(1, [9]), (2, [10])]] = false := by
+  decide
+
+/-- non-vacuity of the history-level twin theorem: a histogram twin over two cycles (vectors are
+`count :: sum :: buckets`); the oracle rejects a cumulative report with one bucket off by one -/
+example :
+    let hist : List Cycle := [([(2, 5), (1, 50)], 1), ([(1, -3), (1, 7)], 4)]
+    let h : Hist := { bounds := [0, 10] }
+    ((Agg.hist h).runCycles .delta hist).2.map repOf = [[(1, [1, 50, 0, 0, 1]), (2, [1, 5, 0, 1, 0])], [(1, [2, 4, 1, 1, 0])]] ∧
+    ((Agg.hist h).runCycles .cumulative hist).2.map repOf =
+      [[(1, [1, 50, 0, 0, 1]), (2, [1, 5, 0, 1, 0])], [(1, [3, 54, 1, 1, 1]), (2, [1, 5, 0, 1, 0])]] ∧
+    Spec.twinAgree [[(1, [1, 50, 0, 0, 1]), (2, [1, 5, 0, 1, 0])], [(1, [2, 4, 1, 1, 0])]]
+      [[(1, [1, 50, 0, 0, 1]), (2, [1, 5, 0, 1, 0])], [(1, [3, 54, 1, 1, 2]), (2, [1, 5, 0, 1, 0])]] = false := by
+  decide
+
+/-- non-vacuity of the history-level gauge theorem: a synchronous gauge over two cycles — the delta reader forgets
+set 1 after the first cycle, the cumulative reader keeps its last value -/
+example :
+    let hist : List Cycle := [([(1, 5), (1, 6)], 1), ([(2, 1)], 2)]
+    ((Agg.lv {}).runCycles .delta hist).2.map repOf = [[(1, [6])], [(2, [1])]] ∧
+    ((Agg.lv {}).runCycles .cumulative hist).2.map repOf = [[(1, [6])], [(1, [6]), (2, [1])]] ∧
+    Spec.syncGaugeHistOK (hist.map (·.1)) [[(1, [6])], [(2, [1])]] [[(1, [5])], [(1, [6]), (2, [1])]] = false := by
+  decide
+
+/-! ## History-level theorems (the whole twin-reader system)
+
+A history is any `List Op` (record / observe / register / unregister / collect) over any instrument configuration
+`is` and callback slots `slots`; `Sys.run` is the model the driver replays; `modelORecs` is the structured form of
+the line the driver prints for the model (`renderRecs` prints exactly `flagRecs`; the driver checks on every line on
+which implementation and model agree that parsing the line gives `modelORecs` back).  `oracle` (Oracle.lean) is THE
+predicate the driver evaluates on the implementation's records — one definition, two uses. -/
+
+/-- HISTORY LEVEL of the three interval clauses, as the oracle judges them: for every history of operations, every
+stream of every record of the model passes `Spec.deltaIntervalOK` (delta reader: start window = previous collection,
+creation for the first; adjacent to the previous report of the stream when that was the preceding cycle) resp.
+`Spec.cumulativeIntervalOK` (cumulative reader: start window = creation, same start as the stream's previous report),
+both including start ≤ time, time in the window of its own collection, all points of a stream stamped alike.  Model
+times are strictly increasing by construction (creation 0, collection `k` at `k + 1`); for arbitrary strictly
+increasing clock readings see `delta_intervals_adjacent_history` etc. above. -/
+theorem intervals_history (is : List InstCfg) (slots : List (List Nat)) (ops : List Op) :
+    intervalsOK (modelORecs (Sys.run is slots ops).recs) = true :=
+  intervalsOK_of_stamps _ (timeInv_run is slots ops).recs
+
+/-- ALL CLAUSES: for every instrument configuration (all 7 kinds × all aggregation selections, int64/float64, with or
+without instrument callbacks), all callback slots and EVERY history of operations, the whole conjunction the driver
+evaluates on the implementation — interval clause, two records per cycle, and per instrument by its aggregation:
+`Spec.twinAgree` (sum, explicit histogram, exponential histogram), `Spec.asyncSumHistOK` (precomputed sum),
+`Spec.asyncGaugeHistOK` (asynchronous gauge), `Spec.syncGaugeHistOK` (synchronous gauge), nothing reported (drop /
+incompatible) — holds of the model's own records.  Proof: per-instrument decomposition of `Sys.run` into local cycle
+histories (SysDecomp.lean: callbacks reach exactly the registered asynchronous instruments, `record` exactly the
+synchronous one, both readers see the same measurements) + the one-instrument history theorems above. -/
+theorem twin_all_clauses (is : List InstCfg) (slots : List (List Nat)) (ops : List Op) :
+    oracle is slots ops (modelORecs (Sys.run is slots ops).recs) = true :=
+  oracle_model is slots ops
+
+/-- The decomposition behind `twin_all_clauses`, for every history of operations: instrument `j`'s aggregator in the
+delta (cumulative) reader IS the delta (cumulative) run of `mkAgg` over the instrument's local history
+(`localHist`: per cycle the synchronous records since the previous collection, then the observations replayed by the
+callbacks registered for it, collected at model time `k + 1`), followed by the records still pending.  Both readers
+are fed the same measurements. -/
+theorem instrument_decomposition (is : List InstCfg) (slots : List (List Nat)) (ops : List Op) (j : Nat) (ic : InstCfg)
+    (hj : is[j]? = some ic) :
+    ∃ pend,
+      (Sys.run is slots ops).d[j]? =
+        some (((mkAgg ic).runCycles .delta (localHist ic j (cycleInputs is slots ops) 0)).1.feed pend) ∧
+      (Sys.run is slots ops).c[j]? =
+        some (((mkAgg ic).runCycles .cumulative (localHist ic j (cycleInputs is slots ops) 0)).1.feed pend) := by
+  have inv := sysInv_run is slots ops
+  have hsys := cycleFold_sys ops (Sys.init is slots, [], [])
+  refine ⟨pendOf ic j (ops.foldl cycleStep (Sys.init is slots, [], [])).2.1, ?_, ?_⟩
+  · have := inv.aggs j ic hj true
+    rw [hsys] at this; exact this
+  · have := inv.aggs j ic hj false
+    rw [hsys] at this; exact this
+
+/-- example configuration: an asynchronous counter, a synchronous gauge, a histogram with the view boundaries -/
+def exInsts : List InstCfg :=
+  [⟨false, .obsCounter, .dflt, false⟩, ⟨false, .gauge, .dflt, false⟩, ⟨false, .histogram, .explicit, false⟩]
+
+/-- example history: three cycles; set 1 of the counter is observed in cycles 1 and 3 only; `v` = its third value -/
+def exOps (v : Int) : List Op :=
+  [.reg 0, .obs 0 1 5, .obs 0 2 7, .record 1 1 4, .record 2 1 50, .col, .obs 0 2 10, .record 1 1 6, .col,
+   .obs 0 1 v, .record 2 1 5, .col]
+
+/-- non-vacuity of `twin_all_clauses`: the oracle accepts the model's records of the example history and REJECTS the
+records of a history that differs in one observed value -/
+example :
+    (((modelORecs (Sys.run exInsts [[0]] (exOps 9)).recs).map fun r =>
+        (r.cycle, r.delta, r.streams.map fun s => (s.inst, s.pts))) ==
+      [(0, true, [(0, [(1, [5]), (2, [7])]), (1, [(1, [4])]), (2, [(1, [1, 50, 0, 0, 1, 0])])]),
+       (0, false, [(0, [(1, [5]), (2, [7])]), (1, [(1, [4])]), (2, [(1, [1, 50, 0, 0, 1, 0])])]),
+       (1, true, [(0, [(2, [3])]), (1, [(1, [6])])]),
+       (1, false, [(0, [(2, [10])]), (1, [(1, [6])]), (2, [(1, [1, 50, 0, 0, 1, 0])])]),
+       (2, true, [(0, [(1, [9])]), (2, [(1, [1, 5, 0, 1, 0, 0])])]),
+       (2, false, [(0, [(1, [9])]), (1, [(1, [6])]), (2, [(1, [2, 55, 0, 1, 1, 0])])])]) = true ∧
+    oracle exInsts [[0]] (exOps 9) (modelORecs (Sys.run exInsts [[0]] (exOps 9)).recs) = true ∧
+    oracle exInsts [[0]] (exOps 9) (modelORecs (Sys.run exInsts [[0]] (exOps 8)).recs) = false := by
+  decide
 
 /-- Clause "callbacks … observer routes to registered instruments only": a callback that is not registered for
 instrument `j` leaves `j`'s aggregator untouched whatever it tries to observe. -/
